@@ -189,27 +189,146 @@ func (e *Explorer) choose(k int) int {
 }
 
 // concretize forks deterministically (in increasing order) over the finite
-// domain of a choice variable.
+// domain of the choice variables a term depends on.
 func (e *Explorer) concretize(t *Term) int64 {
 	if t.op == "int" {
 		return t.ival
 	}
-	if t.op != "var" {
-		panic(abortPath{"concretize of non-variable term " + t.String()})
+	vars := map[string]*Term{}
+	var order []string
+	collectDecls(t, func(d *Term) {
+		if d.op == "var" {
+			if _, ok := vars[d.name]; !ok {
+				vars[d.name] = d
+				order = append(order, d.name)
+			}
+		} else {
+			order = append(order, "\x00uf")
+		}
+	})
+	env := map[string]int64{}
+	for _, n := range order {
+		if n == "\x00uf" {
+			panic(abortPath{"concretize of a term with uninterpreted functions: " + t.String()})
+		}
+		v := vars[n]
+		k, ok := e.domain[n]
+		if !ok || v.isB {
+			panic(abortPath{"concretize without finite domain: " + n + " in " + t.String()})
+		}
+		found := false
+		for x := int64(0); x < k; x++ {
+			if e.decide(tEq(v, tInt(x))) {
+				env[n] = x
+				found = true
+				break
+			}
+		}
+		if !found {
+			panic(abortPath{infeasible})
+		}
 	}
-	k, ok := e.domain[t.name]
+	r, ok := evalInt(t, env)
 	if !ok {
-		panic(abortPath{"concretize without finite domain: " + t.name})
+		panic(abortPath{"concretize: cannot evaluate " + t.String()})
 	}
-	for v := int64(0); v < k; v++ {
-		if v == k-1 {
-			// last candidate: still confirm feasibility through decide
+	return r
+}
+
+func evalBool(t *Term, env map[string]int64) (bool, bool) {
+	switch t.op {
+	case "bool":
+		return t.bval, true
+	case "not":
+		b, ok := evalBool(t.args[0], env)
+		return !b, ok
+	case "and", "or":
+		res := t.op == "and"
+		for _, a := range t.args {
+			b, ok := evalBool(a, env)
+			if !ok {
+				return false, false
+			}
+			if t.op == "and" {
+				res = res && b
+			} else {
+				res = res || b
+			}
 		}
-		if e.decide(tEq(t, tInt(v))) {
-			return v
+		return res, true
+	case "=", "<", "<=", ">", ">=":
+		if t.args[0].isB {
+			a, ok1 := evalBool(t.args[0], env)
+			b, ok2 := evalBool(t.args[1], env)
+			return a == b, ok1 && ok2
 		}
+		a, ok1 := evalInt(t.args[0], env)
+		b, ok2 := evalInt(t.args[1], env)
+		if !ok1 || !ok2 {
+			return false, false
+		}
+		switch t.op {
+		case "=":
+			return a == b, true
+		case "<":
+			return a < b, true
+		case "<=":
+			return a <= b, true
+		case ">":
+			return a > b, true
+		}
+		return a >= b, true
+	case "ite":
+		c, ok := evalBool(t.args[0], env)
+		if !ok {
+			return false, false
+		}
+		if c {
+			return evalBool(t.args[1], env)
+		}
+		return evalBool(t.args[2], env)
 	}
-	panic(abortPath{infeasible})
+	return false, false
+}
+
+func evalInt(t *Term, env map[string]int64) (int64, bool) {
+	switch t.op {
+	case "int":
+		return t.ival, true
+	case "var":
+		v, ok := env[t.name]
+		return v, ok
+	case "+", "-", "*":
+		acc, ok := evalInt(t.args[0], env)
+		if !ok {
+			return 0, false
+		}
+		for _, a := range t.args[1:] {
+			b, ok := evalInt(a, env)
+			if !ok {
+				return 0, false
+			}
+			switch t.op {
+			case "+":
+				acc += b
+			case "-":
+				acc -= b
+			default:
+				acc *= b
+			}
+		}
+		return acc, true
+	case "ite":
+		c, ok := evalBool(t.args[0], env)
+		if !ok {
+			return 0, false
+		}
+		if c {
+			return evalInt(t.args[1], env)
+		}
+		return evalInt(t.args[2], env)
+	}
+	return 0, false
 }
 
 func shortSite(site string) string {
